@@ -77,15 +77,18 @@ func (l *Lock) updateLockedState(w http.ResponseWriter, r *http.Request, wasCorr
 	attempts++
 
 	if !wasCorrectPassword {
-		if time.Now().UTC().Sub(last) <= l.Modules.LockWindow {
-			if attempts >= l.Modules.LockAfter {
-				lu.PutLocked(time.Now().UTC().Add(l.Modules.LockDuration))
-			}
-
-			lu.PutAttemptCount(attempts)
-		} else {
-			lu.PutAttemptCount(1)
+		if time.Now().UTC().Sub(last) > l.Modules.LockWindow {
+			// The window has lapsed: this failure restarts the count
+			attempts = 1
 		}
+
+		// The threshold applies to every failure, including the one that
+		// (re)starts the count, otherwise LockAfter=1 never locks.
+		if attempts >= l.Modules.LockAfter {
+			lu.PutLocked(time.Now().UTC().Add(l.Modules.LockDuration))
+		}
+
+		lu.PutAttemptCount(attempts)
 	}
 	lu.PutLastAttempt(time.Now().UTC())
 
